@@ -119,6 +119,43 @@ def hole_requirements(sv):
     return req
 
 
+def check_splitters(S, r5):
+    """type text (Rust or rendered TypeScript) is cut only by depth-aware scans; shared by C05-D5 and C01-D4"""
+    targets = [f for f in S.fns if f.body is not None and (f.file.endswith("analysis/type_resolver.rs") or f.name in ("extract_type_names_recursive", "add_types_prefix"))]
+    for f in targets:
+        for e in walk_block(f.body):
+            if e.get("k") == "mcall" and e["method"] in ("find", "rfind", "split", "splitn", "split_once", "rsplit", "rsplit_once", "split_terminator") and e["args"]:
+                a = e["args"][0]
+                v = a["lit"]["v"] if a.get("k") == "lit" else None
+                if v == ",":
+                    r5.bad(V(r5.id, "%s::%s" % (f.owner, f.name), "naive-comma:%s(',') on %s" % (e["method"], expr_text(e["recv"])),
+                             "%s(',') splits type text at the first/every comma regardless of nesting" % e["method"], f.file, e["ln"]))
+                elif v is not None and v.strip() in (",", "|") :
+                    # the same on rendered TypeScript text (`[A | null, B]`, `Record<K, V | null>`): members nest inside brackets
+                    r5.bad(V(r5.id, "%s::%s" % (f.owner, f.name), "naive-separator:%s(%r) on %s" % (e["method"], v, expr_text(e["recv"])),
+                             "%s(%r) cuts type text at every separator regardless of bracket nesting" % (e["method"], v), f.file, e["ln"]))
+        for e in walk_block(f.body):
+            if (e.get("k") == "call" and expr_text(e["func"]).endswith("split_top_level_commas")):
+                r5.ok("%s::%s splits with the depth-aware splitter" % (f.owner, f.name))
+        # depth-aware scanners: must count all three bracket kinds
+        scans = [e for e in walk_block(f.body) if e.get("k") == "for" and "char_indices" in expr_text(e["iter"])]
+        for sc in scans:
+            pats = set()
+            for x in walk_block(sc["body"]):
+                if x.get("k") == "match":
+                    for arm in x["arms"]:
+                        for p in (arm["pat"]["cases"] if arm["pat"].get("k") == "or" else [arm["pat"]]):
+                            if p.get("k") == "lit":
+                                pats.add(p["lit"]["v"])
+            need = {"<", ">", "(", ")", ","}
+            if need <= pats:
+                r5.ok("%s::%s scans with depth tracking over %s" % (f.owner, f.name, sorted(pats)))
+            else:
+                r5.bad(V(r5.id, "%s::%s" % (f.owner, f.name), "depth-scan-misses:%s" % ",".join(sorted(need - pats)),
+                         "the depth-aware splitter does not track %s: a tuple or fn-pointer key such as `HashMap<(i32, i32), U>` is cut inside the parentheses"
+                         % sorted(need - pats), f.file, sc["ln"]))
+
+
 def check(ctx):
     P = ctx.P
     S = ctx.S
@@ -337,35 +374,7 @@ def check(ctx):
               "a type-argument list is split only by a scan that tracks bracket depth (`<>`, `()`, `[]`) and cuts at depth 0; no find(',') / "
               "split(',') / split_once(',') on type text in the type resolver or the type-name harvester",
               "a first-comma split cuts `Result<HashMap<String, User>, E>` at the inner comma: half a generic argument list leaks into the output")
-    targets = [f for f in S.fns if f.body is not None and (f.file.endswith("analysis/type_resolver.rs") or f.name in ("extract_type_names_recursive",))]
-    for f in targets:
-        for e in walk_block(f.body):
-            if e.get("k") == "mcall" and e["method"] in ("find", "rfind", "split", "splitn", "split_once", "rsplit", "rsplit_once", "split_terminator") and e["args"]:
-                a = e["args"][0]
-                v = a["lit"]["v"] if a.get("k") == "lit" else None
-                if v == ",":
-                    r5.bad(V(r5.id, "%s::%s" % (f.owner, f.name), "naive-comma:%s(',') on %s" % (e["method"], expr_text(e["recv"])),
-                             "%s(',') splits type text at the first/every comma regardless of nesting" % e["method"], f.file, e["ln"]))
-        for e in walk_block(f.body):
-            if (e.get("k") == "call" and expr_text(e["func"]).endswith("split_top_level_commas")):
-                r5.ok("%s::%s splits with the depth-aware splitter" % (f.owner, f.name))
-        # depth-aware scanners: must count all three bracket kinds
-        scans = [e for e in walk_block(f.body) if e.get("k") == "for" and "char_indices" in expr_text(e["iter"])]
-        for sc in scans:
-            pats = set()
-            for x in walk_block(sc["body"]):
-                if x.get("k") == "match":
-                    for arm in x["arms"]:
-                        for p in (arm["pat"]["cases"] if arm["pat"].get("k") == "or" else [arm["pat"]]):
-                            if p.get("k") == "lit":
-                                pats.add(p["lit"]["v"])
-            need = {"<", ">", "(", ")", ","}
-            if need <= pats:
-                r5.ok("%s::%s scans with depth tracking over %s" % (f.owner, f.name, sorted(pats)))
-            else:
-                r5.bad(V(r5.id, "%s::%s" % (f.owner, f.name), "depth-scan-misses:%s" % ",".join(sorted(need - pats)),
-                         "the depth-aware splitter does not track %s: a tuple or fn-pointer key such as `HashMap<(i32, i32), U>` is cut inside the parentheses"
-                         % sorted(need - pats), f.file, sc["ln"]))
+    check_splitters(S, r5)
     r5.require_floor(4, "splitter sites")
     rules.append(r5)
 
